@@ -287,8 +287,8 @@ def runTgt (args : List String) : String × String :=
           | some (t, last) =>
             let lastAbs := (hs.getLast?).getD h0
             let fresh := Target.fromHash last
-            (s!"v={b2s t.isValid} fe={b2s (t.fullEq fresh)} eqv={b2s (t.isEquiv last)} eqp={b2s (t.isEquiv f0)} s={t.compare pr} c={b2s (t.isComparisonCandidate pr)}",
-             s!"v=1 fe=1 eqv=1 eqp={b2s (h0 == lastAbs)} s={Spec.scoreDP lastAbs.1 lastAbs.2.1 lastAbs.2.2 pk p1 p2} c={b2s (specCandidate lastAbs.1 lastAbs.2.1 lastAbs.2.2 pk p1 p2)}")
+            (s!"v={b2s t.isValid} fe={b2s (t.fullEq fresh)} eqv={b2s (t.isEquiv last)} eqp={b2s (t.isEquiv f0)} s={t.compare pr} c={b2s (t.isComparisonCandidate pr)} e1={optNat (t.pa1.editDistance pr.blockHash1)} e2={optNat (t.pa2.editDistance pr.blockHash2)} h1={optBool (t.pa1.hasCommonSubstring pr.blockHash1)} h2={optBool (t.pa2.hasCommonSubstring pr.blockHash2)}",
+             s!"v=1 fe=1 eqv=1 eqp={b2s (h0 == lastAbs)} s={Spec.scoreDP lastAbs.1 lastAbs.2.1 lastAbs.2.2 pk p1 p2} c={b2s (specCandidate lastAbs.1 lastAbs.2.1 lastAbs.2.2 pk p1 p2)} e1={Spec.editDistanceDP last.blockHash1 pr.blockHash1} e2={Spec.editDistanceDP last.blockHash2 pr.blockHash2} h1={b2s (Spec.common7 last.blockHash1 pr.blockHash1)} h2={b2s (Spec.common7 last.blockHash2 pr.blockHash2)}")
       | _, _ => ("PANIC", "-")
     | _, _ => ("bad-op", "-")
   | _ => ("bad-op", "-")
